@@ -19,9 +19,23 @@ class _Time:
 
     def __init__(self, clock):
         self._clock = clock
+        self._origin = float(clock.now) - 4321.5
 
     def time(self):
         return float(self._clock.now)
+
+    # the other clocks of the time module tick with the same virtual clock but have their own, unrelated origin (as the real
+    # ones do): code may use any of them, but not mix readings of two
+    def monotonic(self):
+        return float(self._clock.now) - self._origin
+
+    perf_counter = monotonic
+
+    def monotonic_ns(self):
+        return int(self.monotonic() * 1e9)
+
+    def time_ns(self):
+        return int(self.time() * 1e9)
 
     def sleep(self, d):
         self._clock.now += d
